@@ -322,6 +322,11 @@ CHECKS["C04"]["text"] += (" The event-metric glue — util._fast_hit_windows, ut
 CHECKS["C04"]["text"] += (" tempo.validate / tempo.detection and the transcription P/R/F functions (onset_, offset_precision_recall_f1, "
                           "precision_recall_f1_overlap) are regenerated as well (parts `evglue`, `trmatch`) and proved equal to the "
                           "definitions (Props/C04_GenGlue.lean, C04_GenTr.lean).")
+CHECKS["C04"]["text"] += (" transcription.average_overlap_ratio, the `evaluate` glue of transcription and transcription_velocity "
+                          "(the keywords of **kwargs as optional parameters) and transcription_velocity.match_notes / "
+                          "precision_recall_f1_overlap are regenerated too (part `trvel` -> lean/MirGen/TrVel.lean; `np.linalg.lstsq` on "
+                          "the design matrix [x, 1] is an extern read as the exact 2x2 normal-equation solution incl. the rank-deficient "
+                          "minimum-norm case) and proved equal to the hand model for all inputs (Props/C04_GenTrVel.lean); suite gen_trvel.")
 CHECKS["C05"]["text"] += (" util._fast_hit_windows / util.match_events and transcription.match_note_onsets / match_note_offsets / "
                           "match_notes are REGENERATED from the source on every run (translator parts `evglue`, `trmatch`); "
                           "Props/C05_GenGlue.lean and C05_GenTr.lean prove the translated definitions equal to the hand model and "
